@@ -79,3 +79,79 @@ func Payload(op Op) []byte {
 	}
 	return b
 }
+
+// ForeignImage builds a valid Anvil region image the way another program may have left it, written here byte by byte:
+// chunks in no particular order, free sectors between them (holding stale bytes), runs that have more sectors than the
+// data needs (the count in the header is what the file says, not what the length implies), old non-zero timestamps, and
+// a file that ends with the last chunk's data, on a sector boundary, or after some further stale sectors. It returns
+// the image, the data of every chunk it holds and the sectors that are free inside the file.
+func ForeignImage(r *vm.Rand, n int) (img []byte, chunks map[[2]int][]byte, free []int) {
+	chunks = map[[2]int][]byte{}
+	hdr := make([]byte, 8192)
+	body := []byte{}
+	sec := 2
+	stale := func(k int) {
+		b := r.Bytes(k * 4096)
+		if k > 0 && r.Bool() {
+			binary.BigEndian.PutUint32(b, uint32(r.Range(1, 4000))) // looks like the beginning of a chunk that lived here once
+		}
+		body = append(body, b...)
+	}
+	for len(chunks) < n {
+		var op Op
+		if r.Intn(3) == 0 {
+			op.X, op.Z = r.Intn(32), r.Intn(32)
+		} else {
+			op.X, op.Z = r.Intn(4), r.Intn(4)
+		}
+		if r.Intn(8) == 0 {
+			op.X, op.Z = []int{0, 31}[r.Intn(2)], []int{0, 31}[r.Intn(2)]
+		}
+		key := [2]int{op.X, op.Z}
+		if _, dup := chunks[key]; dup {
+			continue
+		}
+		if r.Intn(3) == 0 {
+			gap := r.Range(1, 3)
+			for i := 0; i < gap; i++ {
+				free = append(free, sec+i)
+			}
+			stale(gap)
+			sec += gap
+		}
+		op.Tag = r.Uint64()
+		if r.Bool() {
+			op.Size = sizeTable[r.Intn(len(sizeTable))]
+		} else {
+			op.Size = r.Range(1, 30000)
+		}
+		need := (op.Size + 4 + 4095) / 4096
+		cnt := need
+		if r.Bool() {
+			cnt += r.Range(1, 3)
+		}
+		data := Payload(op)
+		chunks[key] = data
+		idx := 4 * (op.Z*32 + op.X)
+		binary.BigEndian.PutUint32(hdr[idx:], uint32(sec)<<8|uint32(cnt))
+		binary.BigEndian.PutUint32(hdr[4096+idx:], uint32(1_500_000_000+r.Intn(100_000_000)))
+		run := r.Bytes(cnt * 4096) // what follows the data inside the run is stale as well
+		binary.BigEndian.PutUint32(run, uint32(len(data)))
+		copy(run[4:], data)
+		body = append(body, run...)
+		sec += cnt
+		if len(chunks) == n {
+			switch r.Intn(3) {
+			case 0: // the file ends with the data of the last chunk
+				body = body[:len(body)-cnt*4096+4+len(data)]
+			case 1: // further stale sectors after the last run
+				k := r.Range(1, 2)
+				for i := 0; i < k; i++ {
+					free = append(free, sec+i)
+				}
+				stale(k)
+			}
+		}
+	}
+	return append(hdr, body...), chunks, free
+}
